@@ -18,14 +18,18 @@ RULE = ('generated terminating programs (1..9 chained blocks printing markers, e
         'program state; trap mode = RUN to a STOP with active ON ERROR / KEY / TIMER traps, RENUM, inspect, CONT')
 EXPLANATION = ('theorems (PcbV.Props.C14): numbering rule, acceptance iff, sortedness / C13.Repr kept, strictly monotone '
                'old->new map, jump-target and trap-target preservation, reference rewriting as seen by a re-scan '
-               '(partial: new > 0), report iff the target is no line.  Correspondence: token bytes of every line, report '
+               '(partial: new > 0), report iff the target is no line; behaviour clause proved by simulation on the '
+               'MiniBasic Mech layer of C19 (renum_semantics_map / renum_semantics / renum_semantics_all_targets_exist: same '
+               'printed output and termination for every fuel when no missing target collides with a new number).  Correspondence: token bytes of every line, report '
                'lines and trap lines of a real Session after RENUM vs the compiled model.  Oracle (independent of the '
                'model): the generator knows every reference of every line, so the expected LIST text, report lines, '
                'acceptance and numbering are computed from the property statement; the program output (RUN, and '
                'STOP/RENUM/CONT) must be identical before and after RENUM up to printed line numbers')
 TRUSTED_BASE = ['model PcbV.Model.Renum: hand transcription of Program.renum (with pending fix C14-renum-error-goto-0) and '
                 'of the trap remap in Interpreter.renum_, per record body on C13\'s abstract program',
-                'tokeniser/lister used as given (C17); C13: bytes <-> record list']
+                'tokeniser/lister used as given (C17); C13: bytes <-> record list',
+                'PcbV.Model.MiniRenum (renumbering of a MiniBasic AST) stands for the byte-level rewrite through the '
+                'tokeniser/parser correspondence of C17/C19; MiniBasic itself is tied to interpreter.py by C19\'s check']
 ASSUMPTIONS = ['line numbers < 65535 (typed programs: <= 65529)', 'bodies are tokeniser output (well-formed for skip_to)',
                'programs are in ascending line order (C13 invariant)']
 
